@@ -391,8 +391,12 @@ class IndentationFitter(object):
         # and with `Indentation.fit_properties`) must not be modified
         params_initial = copy.deepcopy(self.fp["params_initial"])
         # modify contact point with gcf_k
-        cpi = params_initial["contact_point"].value
-        params_initial["contact_point"].set(value=cpi * self.fp["gcf_k"])
+        # (the contact point and its bounds are given in measured units)
+        cpi = params_initial["contact_point"]
+        params_initial["contact_point"].set(
+            value=cpi.value * self.fp["gcf_k"],
+            min=cpi.min * self.fp["gcf_k"],
+            max=cpi.max * self.fp["gcf_k"])
         weight_cp = self.fp["weight_cp"]
 
         # boolean array indexing the segment
@@ -433,8 +437,11 @@ class IndentationFitter(object):
             # residuals
             fit_res[segid] = md.residual(fit.params, xseg, yseg, weight_cp)
             # inverse contact point correction with gcf_k
-            cpf = fit.params["contact_point"].value
-            fit.params["contact_point"].set(value=cpf / self.fp["gcf_k"])
+            cpf = fit.params["contact_point"]
+            fit.params["contact_point"].set(
+                value=cpf.value / self.fp["gcf_k"],
+                min=cpf.min / self.fp["gcf_k"],
+                max=cpf.max / self.fp["gcf_k"])
             # add fit results to fp dictionary
             self.fp.update({"params_fitted": fit.params,
                             "chi_sqr": fit.chisqr,
